@@ -36,7 +36,7 @@ Definition probe_set (ds : dset) (model : bool) (probes values : list sx) : sx :
                let key := oref_of_sx (sx_nth 0 p) in
                let o := dop_of_sx (sx_nth 1 p) in
                let r := if model then m_find_data ds key o else s_find_data ds key o in
-               L [of_nats r; of_bool (match r with [] => false | _ => true end); of_nats r; of_nats r]) probes);
+               L [of_nats r; of_bool (match r with [] => false | _ => true end); of_nats r; of_nats r; of_bool (match r with [] => false | _ => true end)]) probes);
      L (map (fun v => L (map (fun k => of_opt (if model then m_data_by_value ds (ById k) (value_of_sx v)
                                                 else s_data_by_value ds (ById k) (value_of_sx v)))
                              (seq 0 3))) values)].
